@@ -182,6 +182,8 @@ structure Lexer where
   start : Int := 0
   width : Int := 0
   doubleDelim : Bool := false
+  /-- start position of the tag being scanned, for errors -/
+  tagStart : Int := 0
   lastEmit : Item := Item.zero
   /-- everything sent on the channel so far -/
   items : Array Item := #[]
@@ -192,6 +194,10 @@ def len (l : Lexer) : Int := l.input.size
 
 /-- the termination measure of the scanning loops -/
 def rem (l : Lexer) : Nat := (l.len - l.pos).toNat
+
+/-- the largest position of an item sent so far (0 if none); used by the position bound of
+    Props/C19.lean -/
+def mp (l : Lexer) : Nat := l.items.toList.foldl (fun m it => max m it.pos) 0
 
 /-- `l.next()` -/
 def next (l : Lexer) : Option (Int × Lexer) :=
@@ -241,6 +247,11 @@ abbrev Res := Option (Option St × Lexer)
     (`pos` is never negative here — a negative `pos` panics at the latest in `next`.) -/
 def errorf (l : Lexer) : Res :=
   some (none, { l with items := l.items.push { typ := .tError, pos := l.pos.toNat, val := [] } })
+
+/-- `l.errorfAt(pos, ...)`: an Error item positioned where an unclosed construct begins
+    (`l.start`, `docStart` or `l.tagStart`, none of which is ever negative). -/
+def errorfAt (l : Lexer) (pos : Int) : Res :=
+  some (none, { l with items := l.items.push { typ := .tError, pos := pos.toNat, val := [] } })
 
 /-! ### Facts about `next` needed for the termination of the scanning loops -/
 
@@ -448,7 +459,7 @@ def lexBlockComment (l : Lexer) (star : Bool) : Res :=
   match h : l.next with
   | none => none
   | some (r, l1) =>
-    if r = eof then errorf l1
+    if r = eof then errorfAt l1 l1.start
     else if r = 42 then lexBlockComment l1 true
     else if r = 47 ∧ star = true then
       match l1.emit .tComment with
@@ -610,11 +621,11 @@ theorem isEndOfLine_isSpaceEOL {r : Int} (h : isEndOfLine r = true) : isSpaceEOL
 /-- the `for` loop of `lexSoyDoc`; `star`, `startOfLine` are its loop variables.
     Measure: a `startOfLine` iteration that meets a non-space, non-`*` character steps back
     (`l.pos--`) and clears `startOfLine`, every other iteration moves forward. -/
-def lexSoyDocLoop (l : Lexer) (star startOfLine : Bool) : Res :=
+def lexSoyDocLoop (l : Lexer) (docStart : Int) (star startOfLine : Bool) : Res :=
   match h : l.next with
   | none => none
   | some (ch, l1) =>
-    if hE : ch = eof then errorf l1
+    if hE : ch = eof then errorfAt l1 docStart
     else if star = true ∧ ch = 47 then
       match maybeEmitText l1 2 with
       | none => none
@@ -624,8 +635,8 @@ def lexSoyDocLoop (l : Lexer) (star startOfLine : Bool) : Res :=
         | some l3 => some (some .text, l3)
     else if hS : startOfLine = true then
       -- ignore any space or asterisks at the beginning of lines
-      if hSp : isSpaceEOL ch = true then lexSoyDocLoop l1 star true
-      else if hSt : ch = 42 then lexSoyDocLoop l1 true true
+      if hSp : isSpaceEOL ch = true then lexSoyDocLoop l1 docStart star true
+      else if hSt : ch = 42 then lexSoyDocLoop l1 docStart true true
       else
         -- l.pos--; l.ignore(); start with @param?
         match hPre : hasPrefixAt l1.input (l1.pos - 1) atParam with
@@ -639,14 +650,14 @@ def lexSoyDocLoop (l : Lexer) (star startOfLine : Bool) : Res :=
             if hEol : isEndOfLine ch = true then
               match hM : maybeEmitText l2 1 with
               | none => none
-              | some l3 => lexSoyDocLoop l3 (ch == 42) true
-            else lexSoyDocLoop l2 (ch == 42) false
+              | some l3 => lexSoyDocLoop l3 docStart (ch == 42) true
+            else lexSoyDocLoop l2 docStart (ch == 42) false
     else
       if hEol : isEndOfLine ch = true then
         match hM : maybeEmitText l1 1 with
         | none => none
-        | some l2 => lexSoyDocLoop l2 (ch == 42) true
-      else lexSoyDocLoop l1 (ch == 42) false
+        | some l2 => lexSoyDocLoop l2 docStart (ch == 42) true
+      else lexSoyDocLoop l1 docStart (ch == 42) false
 termination_by 2 * l.rem + (if startOfLine = true then 1 else 0)
 decreasing_by
   · have := next_rem_lt h hE
@@ -690,9 +701,10 @@ decreasing_by
 
 /-- `lexSoyDoc`: '/**' has just been read -/
 def lexSoyDoc (l : Lexer) : Res :=
+  -- var docStart = l.start
   match l.emit .tSoyDocStart with
   | none => none
-  | some l1 => lexSoyDocLoop l1 false true
+  | some l1 => lexSoyDocLoop l1 l.start false true
 
 /-- the `for` loop of `lexText`; `lastChar` is the previous value of `r` (0 at the start) -/
 def lexTextLoop (l : Lexer) (lastChar : Int) : Res :=
@@ -750,6 +762,7 @@ def lexText (l : Lexer) : Res := lexTextLoop l 0
 
 /-- `lexLeftDelim` -/
 def lexLeftDelim (l : Lexer) : Res := do
+  let l : Lexer := { l with tagStart := l.start }
   let (_, l) ← l.next -- read the first {
   let (r, l) ← l.next
   let l : Lexer := if r = 123 then { l with doubleDelim := true } else { l.backup with doubleDelim := false }
@@ -816,7 +829,7 @@ def lexSymbol (l : Lexer) : Res := do
 def lexInsideTagRest (r : Int) (l : Lexer) : Res :=
   if r = 34 ∨ r = 39 then pure (some (.str r), l)
   else if r = 61 then emitInside l .tEquals
-  else if r = eof then errorf l
+  else if r = eof then errorfAt l l.tagStart
   else if r = 124 then emitInside l .tPipe
   else if isLetterOrUnderscore r then pure (some .ident, l.backup)
   else if r = 44 then emitInside l .tComma
@@ -863,7 +876,7 @@ def lexString (quote : Int) (l : Lexer) : Res :=
   match h : l.next with
   | none => none
   | some (r, l1) =>
-    if hE : r = eof then errorf l1
+    if hE : r = eof then errorfAt l1 l1.start
     else if r = 92 then
       -- skip escape sequences
       match h2 : l1.next with
@@ -905,7 +918,11 @@ def lexIdent (l : Lexer) : Res := do
   if r = 46 then do
     let (d, l) ← l.next
     lexIdentRest l.backup (if isDigit d then .tDotIndex else .tDotIdent)
-  else if r = 36 then lexIdentRest l .tDollarIdent
+  else if r = 36 then do
+    -- a variable name begins with a letter or an underscore.
+    let (p, l) ← l.peek
+    if p ≠ 95 ∧ !isLetterU p then errorf l
+    else lexIdentRest l .tDollarIdent
   else if r = 47 then lexIdentRest l .tCommandEnd
   else if r = 92 then lexIdentRest l .tSpecialChar
   else if r = 63 then do
@@ -952,7 +969,7 @@ def lexHeaderParam (l : Lexer) : Res := do
       let l ← skipSpace l
       -- Consume until the equals or end of the tag.
       let (ch, l, lastNonSpace) ← headerTypeLoop l l.pos
-      if ch = eof then errorf l
+      if ch = eof then errorfAt l l.tagStart
       else do
         let l : Lexer := { l with pos := lastNonSpace }
         let l ← l.emit .tHeaderParamType
@@ -967,7 +984,7 @@ def lexCss (l : Lexer) : Res := do
   let (_, l) ← l.next
   let l := l.ignore
   let (ch, l) ← scanWhile cssBody (by decide) l
-  if ch = eof then errorf l
+  if ch = eof then errorfAt l l.tagStart
   else do
     let l ← l.backup.emit .tText
     let (_, l) ← l.next
@@ -995,7 +1012,7 @@ def lexLiteral (l : Lexer) : Res := do
       let delimLen : Int := if l.doubleDelim then 2 else 1
       let rest ← sliceFrom l.input l.pos
       match stringsIndex expectClose rest with
-      | none => errorf l
+      | none => errorfAt l l.tagStart
       | some i => do
         let l := l.addPos i
         let l ← (if i > 0 then l.emit .tText else pure l)
